@@ -32,6 +32,7 @@ def main():
         return selftest.main()
     mod = importlib.import_module(f"harness.props.{pid.lower()}")
     ctx = core.Ctx(pid, a.tier, seed)
+    core.start_memory_watchdog(ctx)
     try:
         core.bind_repo()
         if a.replay:
